@@ -128,12 +128,36 @@ CHECKS["C02"] = dict(
          "generated; go and typescript are listed known findings (vocabulary), so they are currently fully masked.",
     design_ref="5/C02", engine="GIRMachine")
 
+CHECKS["C20"] = dict(
+    category="model_checking",
+    technique="TLA+ specification of entry selection (EntryPoints.tla): TLC checks the scan/start model against the declarative Selected() for every subset of a rule pool, and judges one real lian run per rule subset (entry table, methods P3 started from, reported flows)",
+    text="Selected(R) is defined declaratively from the rule fields (language, unit name, unit path, method list); the operational model of "
+         "rule loading, unit scanning and entry starting is model-checked against it for all 2^10 rule subsets; real runs of lian on a "
+         "three-file two-language project with a local source->sink flow in every python method are recorded per rule subset and judged by "
+         "the same definition: entry table = Selected, started = Selected, flow reported iff its method is reachable from a selected entry.",
+    note="Names chosen so that substring and exact matching coincide; quick: singletons + fixed pairs + 30 seeded subsets; thorough: all subsets up to "
+         "size 3 + 120 larger ones; relies on the call-source fix ced863b for the flow clause.",
+    design_ref="5/C20", engine="EntryPoints")
+
+CHECKS["C10"] = dict(
+    category="model_checking",
+    technique="GIRMachine (TLA+ GIR semantics) extended with a taint tag set per value, run by TLC on the GIR of flow-chain programs; observed (source, sink) pairs must be in lian's reported flows",
+    text="Every value of the machine carries the set of source statements it depends on (operators union tags; fields, elements, dict entries, "
+         "closures, globals, parameters and returns carry them through heap and scopes). Flow-chain programs - source kind x up to two connecting "
+         "constructs x sink placement, with decoys - go through the full lian pipeline; each pair observed at the designated sink argument must be "
+         "reported in taint_data_flow.json.",
+    note="Single-file deterministic python programs (one execution each), explicit flows only, call and parameter sources, call sinks (direct and in a "
+         "callee); exhaustive to chain length 2 in the thorough tier; closures and loop-carried values are listed known findings.",
+    design_ref="5/C10", engine="GIRMachine")
+
 NOT_YET = {
 }
 
 ENGINES = [
+    dict(name="EntryPoints", path="specs/EntryPoints.tla harness/c20.py harness/c20_post.py",
+         serves_properties=["C20"], kind_free_text="TLA+ contract + operational model + trace validation of runs, TLC"),
     dict(name="GIRMachine", path="specs/GIRMachine.tla harness/c01.py harness/c02.py harness/pygen.py harness/coregen.py harness/girjson.py harness/lianrun.py",
-         serves_properties=["C01", "C02"], kind_free_text="executable TLA+ operational semantics of GIR, TLC as interpreter"),
+         serves_properties=["C01", "C02", "C10"], kind_free_text="executable TLA+ operational semantics of GIR, TLC as interpreter"),
     dict(name="Pipeline", path="specs/Pipeline.tla harness/c14.py harness/c14_digest.py",
          serves_properties=["C14"], kind_free_text="deterministic TLA+ spec as trace validator + differential runs"),
     dict(name="GIRControl", path="specs/GIRControl.tla specs/ReachingDefs.tla harness/c04.py harness/c06.py harness/skeleton.py harness/girjson.py harness/lianrun.py",
